@@ -586,6 +586,7 @@ func (c *InferCase) runImpl() string {
 	var mv strings.Builder
 	law09 := "1"
 	dec09 := ""
+	decAll := ""
 	for _, m := range c.Muts {
 		text := renderJSON(m)
 		inst := decodeExact([]byte(text))
@@ -595,6 +596,11 @@ func (c *InferCase) runImpl() string {
 		dec := json.NewDecoder(strings.NewReader(text))
 		dec.DisallowUnknownFields()
 		derr := dec.Decode(p.Interface())
+		if derr == nil {
+			decAll += "D"
+		} else {
+			decAll += "E"
+		}
 		if verr == nil {
 			mv.WriteByte('V')
 			if derr != nil {
@@ -648,7 +654,7 @@ func (c *InferCase) runImpl() string {
 			}
 		}
 	}
-	return out + fmt.Sprintf(" enc=%s v=%s mv=%s impl_dec=%s law_c04=%s law_c09=%s law_c16_names=%s", strings.Join(encs, "|"), vv.String(), mv.String(), dec09, law04, law09, law16n)
+	return out + fmt.Sprintf(" enc=%s v=%s mv=%s impl_dec=%s impl_decall=%s law_c04=%s law_c09=%s law_c16_names=%s", strings.Join(encs, "|"), vv.String(), mv.String(), dec09, decAll, law04, law09, law16n)
 }
 
 func countTree(s *js.Schema, n *int) {
